@@ -17,28 +17,28 @@ import (
 
 // World: the loaded program plus all contracts.
 type World struct {
-	fset      *token.FileSet
-	pkgs      []*packages.Package
-	allPkgs   map[string]*packages.Package
-	prog      *ssa.Program
-	contracts map[string]*Contract
-	conOrder  []string
-	ghosts    map[string]*GhostVar
-	specFuncs map[string]*SpecFunc
-	specOrder []string
-	lemmas    map[string]*Lemma
-	errs      []string
-	constIDs  map[string]int
-	files     map[*token.File]*ast.File
-	srcCache  map[string][]byte
-	specSMT   string
-	specDefs  map[string]string
-	trustedPure map[string]bool
+	fset           *token.FileSet
+	pkgs           []*packages.Package
+	allPkgs        map[string]*packages.Package
+	prog           *ssa.Program
+	contracts      map[string]*Contract
+	conOrder       []string
+	ghosts         map[string]*GhostVar
+	specFuncs      map[string]*SpecFunc
+	specOrder      []string
+	lemmas         map[string]*Lemma
+	errs           []string
+	constIDs       map[string]int
+	files          map[*token.File]*ast.File
+	srcCache       map[string][]byte
+	specSMT        string
+	specDefs       map[string]string
+	trustedPure    map[string]bool
 	freshOverrides map[string]*freshOverride
-	macros    map[string]*Macro
-	mutated   map[string]bool // globals assigned outside init
-	mutScan   bool
-	repo      string
+	macros         map[string]*Macro
+	mutated        map[string]bool // globals assigned outside init
+	mutScan        bool
+	repo           string
 }
 
 func (w *World) constID(key string) int {
@@ -189,7 +189,12 @@ func funcKey(fn *ssa.Function) string {
 		return ""
 	}
 	if fn.Parent() != nil {
-		return path + "." + fn.Name() // closures: Name() is parent$N
+		// closures: Name() is parent$N; key is the parent's key plus the $N suffix
+		pk := funcKey(fn.Parent())
+		if pk == "" {
+			return ""
+		}
+		return pk + strings.TrimPrefix(fn.Name(), fn.Parent().Name())
 	}
 	return path + "." + fn.Name()
 }
